@@ -96,6 +96,15 @@ static void gen_pair(Rng& rng, int cls, uint64_t n, std::vector<int64_t>& a, std
     }
     return;
   }
+  if (cls == 7) {
+    // every coefficient of b is a multiple of 2^s, s in {32, 33, 40} (low words all zero); a sparse and small
+    int s = (int[]){32, 33, 40}[rng.below(3)];
+    for (uint64_t i = 0; i < n; i++) b[i] = (int64_t)((uint64_t)rng.sbits(9) << s);
+    b[rng.below(n)] = (int64_t)1 << s;
+    for (int u = 0; u < 3; u++) a[rng.below(n)] = rng.range(-64, 64);
+    a[rng.below(n)] = 1;
+    return;
+  }
   for (uint64_t i = 0; i < n; i++) {
     switch (cls) {
       case 0: a[i] = rng.sbits(abits); b[i] = rng.sbits(bbits); break;            // random
@@ -152,8 +161,8 @@ STREAM(md_prod) {
   if (thorough) { dims.push_back(16384); dims.push_back(65536); } else dims.push_back(8192);  // m = 4096: the recursive FFT path
   for (uint64_t n : dims)
     for (int mask = 0; mask < 2; mask++)
-      for (int cls = 0; cls < 7; cls++) {
-        if (n > 4096 && cls != 4 && cls != 6) continue;  // the schoolbook oracle is O(nnz(a)·N): only sparse a at the largest dimensions
+      for (int cls = 0; cls < 8; cls++) {
+        if (n > 4096 && cls != 4 && cls != 6 && cls != 7) continue;  // the schoolbook oracle is O(nnz(a)·N): only sparse a at the largest dimensions
         MODULE* mod = get_module(n, 0, mask);
         // operand sizes chosen so that min(|a|_1 |b|_inf, …) stays below 2^52: |a| < 2^abits dense
         int lg = 0; while ((1ull << lg) < n) lg++;
@@ -253,7 +262,7 @@ STREAM(md_prod) {
 
 // ------------------------------------------------------------------------------------------------------
 // C02: vmp for all shapes, small-integer operands (results exact)
-static void vmp_case(Out& out, Rng& rng, uint64_t n, int mask, uint64_t nrows, uint64_t ncols, uint64_t a_size, uint64_t res_size) {
+static void vmp_case(Out& out, Rng& rng, uint64_t n, int mask, uint64_t nrows, uint64_t ncols, uint64_t a_size, uint64_t res_size, int large = 0) {
   MODULE* mod = get_module(n, 0, mask);
   std::string verdict = "ok";
   auto worse = [&](const std::string& v) {
@@ -267,6 +276,22 @@ static void vmp_case(Out& out, Rng& rng, uint64_t n, int mask, uint64_t nrows, u
   std::vector<std::vector<int64_t>> arows(a_size, std::vector<int64_t>(n));
   for (uint64_t i = 0; i < a_size; i++)
     for (uint64_t j = 0; j < n; j++) av[i * a_sl + j] = arows[i][j] = rng.sbits(8);
+  if (large) {
+    // large results inside the budget: monomials of about 2^25 in every row of a and every matrix entry, aligned so that
+    // column j collects min(nrows, a_size) * 2^50 (>= 2^51 for two rows or more, < 2^52 for at most three) in one coefficient
+    for (auto& x : mat) x = 0;
+    for (uint64_t i = 0; i < a_size; i++) {
+      uint64_t p = rng.below(n);
+      for (uint64_t j = 0; j < n; j++) av[i * a_sl + j] = arows[i][j] = 0;
+      av[i * a_sl + p] = arows[i][p] = (((int64_t)1 << 25) - 1 - (int64_t)rng.below(100)) * ((rng.next() & 1) ? 1 : -1);
+      if (i < nrows)
+        for (uint64_t c = 0; c < ncols; c++) {
+          uint64_t t = (7 * c + 3) % n, q = (t + n - p) % n;
+          int64_t sgn = (arows[i][p] < 0 ? -1 : 1) * (p + q >= n ? -1 : 1);
+          mat[(i * ncols + c) * n + q] = sgn * (((int64_t)1 << 25) - 1 - (int64_t)rng.below(100));
+        }
+    }
+  }
   Buf bmat(mat.size() * 8, 8 * rng.below(4), rng, 2), ba(a_size * a_sl * 8, 8 * rng.below(4), rng, 2);
   memcpy(bmat.p, mat.data(), mat.size() * 8);
   memcpy(ba.p, av.data(), a_size * a_sl * 8);
@@ -296,7 +321,7 @@ static void vmp_case(Out& out, Rng& rng, uint64_t n, int mask, uint64_t nrows, u
   if (!msnap.same(mod)) worse("FAIL C18 vmp apply / vec_znx_dft modified the module or one of its tables");
   // (C15) history independence: the same call again through the SAME pointers after the input was overwritten in place
   // and the scratch refilled must give the result of the new input (= a fresh computation on other buffers)
-  if (a_size && res_size) {
+  if (a_size && res_size && !large) {
     for (uint64_t i = 0; i < a_size; i++)
       for (uint64_t j = 0; j < n; j++) ((int64_t*)ba.p)[i * a_sl + j] = arows[i][j] = rng.sbits(8);
     for (size_t i = 0; i < t1.n; i++) t1.p[i] = (uint8_t)rng.next();
@@ -319,8 +344,16 @@ static void vmp_case(Out& out, Rng& rng, uint64_t n, int mask, uint64_t nrows, u
         negacyclic(t, arows[i].data(), &mat[(i * ncols + j) * n], n);
         for (uint64_t k = 0; k < n; k++) acc[k] += t[k];
       }
+    // summed C01 budget of the rows (0 for the small-operand cases, where the result must be exact)
+    long double tol = 0;
+    if (large && j < ncols)
+      for (uint64_t i = 0; i < rows; i++) {
+        std::vector<int64_t> mij(&mat[(i * ncols + j) * n], &mat[(i * ncols + j) * n] + n);
+        tol += 8.0L * log2l((long double)n) * ldexpl(1.0L, -53) * (norm1(arows[i]) * norm2(mij) + norm2(arows[i]) * norm1(mij));
+      }
+    if (large) tol += 0.5L;
     for (uint64_t k = 0; k < n; k++)
-      if ((i128)res[j * n + k] != acc[k]) {
+      if (fabsl((long double)((i128)res[j * n + k] - acc[k])) > tol) {
         char buf[240];
         snprintf(buf, sizeof buf, "FAIL C02 vmp n=%" PRIu64 " nrows=%" PRIu64 " ncols=%" PRIu64 " a_size=%" PRIu64 " res_size=%" PRIu64 " mask=%d column %" PRIu64 " coeff %" PRIu64 " got %" PRId64,
                  n, nrows, ncols, a_size, res_size, mask, j, k, res[j * n + k]);
@@ -349,6 +382,10 @@ STREAM(md_vmp) {
           }
   for (uint64_t n : (thorough ? std::vector<uint64_t>{256, 1024, 4096} : std::vector<uint64_t>{256}))
     for (int t = 0; t < 4; t++) vmp_case(out, rng, n, t & 1, 1 + rng.below(6), 1 + rng.below(6), rng.below(7), rng.below(7));
+  // results of magnitude 2^51..2^52 (top binade of the budget)
+  for (uint64_t n : {(uint64_t)4, (uint64_t)16, (uint64_t)64})
+    for (int mask = 0; mask < 2; mask++)
+      for (uint64_t rows = 2; rows <= 3; rows++) vmp_case(out, rng, n, mask, rows + rng.below(2), 1 + rng.below(3), rows, 1 + rng.below(4), 1);
 }
 
 // ------------------------------------------------------------------------------------------------------
